@@ -191,6 +191,9 @@ class World(object):
         self.live = {}                  # a -> Conn (built, loss not yet reported)
         self.cur = {}                   # a -> most recently built Conn (live or lost)
         self.shadow = {0: Shadow(), 1: Shadow()}
+        # the broker's own identifiers start at different places (not only small numbers)
+        for a in (0, 1):
+            self.shadow[a].in_next = (0, 250, 32760, 65530)[(cfg.seed + a) % 4]
         self.next_token = {0: 1, 1: 500001}   # per address, so that a history and its one-address projection agree
         self.next_did = 1
         self.reqs = {}                  # did -> request record
